@@ -470,7 +470,10 @@ class Gen:
         for s in self.allsinks:
             self.add(C("unblock", s=s))
         nfd = sum(1 for c in self.cmds if c["op"] == "setfd")
-        for _ in range(3):
+        # one round per pipe that hands buffers on from a pump, on top of the three: a buffer that waited in the
+        # input of a full upipe_buffer enters it only once that one has drained, and leaves the next one a round later
+        nbuf = sum(1 for k in self.allpipes.values() if k in ("buffer", "disblo"))
+        for _ in range(3 + nbuf):
             if any(k == "tblk" or k == "time_limit" for k in self.allpipes.values()):
                 for s in self.allsinks:
                     for _ in range(2 + nfd):
